@@ -97,17 +97,33 @@ impl Owed {
             let head = if self.service_error {
                 Some("\"error\":\"org.varlink.service.InvalidParameter\"".to_string())
             } else if self.error && self.unit_error {
-                return if self.wire & 4 != 0 { b"{ \"\\u0065rror\" : \"org.example.Nope\" }".to_vec() } else { b"{ \"error\" : \"org.example.Nope\" }".to_vec() };
+                return if self.wire & 4 != 0 {
+                    b"{ \"\\u0065rror\" : \"org.example.Nope\" }".to_vec()
+                } else if self.wire & 8 != 0 {
+                    b"{ \"x-note\" : { \"continues\" : true }, \"error\" : \"org.example.Nope\" }".to_vec()
+                } else {
+                    b"{ \"error\" : \"org.example.Nope\" }".to_vec()
+                };
             } else if self.error {
                 Some("\"error\":\"org.example.Bad\"".to_string())
             } else {
                 self.continues.map(|c| format!("\"continues\":{sp}{c}"))
             };
             let p = format!("\"parameters\":{sp}{params}");
+            // bit 8: liberties with members the receiver may not care about — a final reply says
+            // `"continues": null`, and there is a member zlink does not know (nested content that
+            // looks like envelope members must not be taken for them)
+            let head = if self.wire & 8 != 0 && head.is_none() && !self.error { Some(format!("\"continues\":{sp}null")) } else { head };
+            let extra = if self.wire & 8 != 0 { Some(format!("\"x-note\":{sp}{{\"error\":\"org.example.Nope\",\"continues\":true,\"parameters\":[null,{{}}]}}")) } else { None };
             let s = match (head, reorder) {
                 (Some(h), true) => format!("{{{p},{sp}{h}}}"),
                 (Some(h), false) => format!("{{{h},{p}}}"),
                 (None, _) => format!("{{{p}}}"),
+            };
+            let s = match (extra, self.num % 2 == 0) {
+                (Some(x), true) => format!("{{{x},{sp}{}", &s[1..]),
+                (Some(x), false) => format!("{},{sp}{x}}}", &s[..s.len() - 1]),
+                (None, _) => s,
             };
             // bit 4: member names written with an escape
             let s = if self.wire & 4 != 0 {
@@ -264,7 +280,7 @@ fn gen_scenario(t: &mut Tape, borrowed: bool) -> Scenario {
     // of the four spellings.
     if t.draw(3) == 2 {
         for o in owed.iter_mut().chain(foreign.iter_mut()) {
-            o.wire = t.draw(8) as u8;
+            o.wire = t.draw(16) as u8;
         }
     }
     // One scenario in six: a reply is an org.varlink.service error. For C06 it answers the last
